@@ -82,7 +82,9 @@ NameDefined(call, subs) ==
 KindClass(kind) == CASE kind = "field" -> "field"
                      [] kind = "real"  -> "real"
                      [] kind \in {"int", "extent", "dir"} -> "integer"
-                     [] kind = "qr"    -> "qr"
+                     [] kind = "qr"    -> "qr"       \* quadrature_xyoz_type
+                     [] kind = "qrf"   -> "qrf"      \* quadrature_face_type
+                     [] kind = "qre"   -> "qre"      \* quadrature_edge_type
                      [] OTHER -> "other"
 KindsOfText(t, orig, okinds) ==
     {okinds[k][j] : <<k, j>> \in {<<k, j>> \in (DOMAIN orig) \X (1..20) :
@@ -107,7 +109,8 @@ FirstOccs(ts, seen) ==
          ELSE <<c>> \o FirstOccs(Tail(ts), seen \cup {c})
 RECURSIVE Flatten(_)
 Flatten(ss) == IF ss = <<>> THEN <<>> ELSE ss[1] \o Flatten(Tail(ss))
-GroupOf(kind) == CASE kind = "extent" -> 2 [] kind = "dir" -> 3 [] kind = "qr" -> 4
+GroupOf(kind) == CASE kind = "extent" -> 2 [] kind = "dir" -> 3
+                   [] kind \in {"qr", "qrf", "qre"} -> 4
                    [] OTHER -> 1
 RECURSIVE PickGroup(_, _, _)
 PickGroup(ts, ks, g) ==
@@ -286,6 +289,36 @@ ExtraShape(i) ==
         invokes |-> << Inv(At(NameU, i \div 4), calls) >>]
 NExtra == 8 * 3 * 3 * 3 * 3
 
+\* --- quadrature-order family: kernels with two and three quadrature shapes
+\* listed in every order in their metadata (gh_shape), invoked with distinct
+\* quadrature objects; kernel "q_ef" = 4 fields + gh_shape = (/edge, face/).
+\* The kernels are variants of testkern_2qr_mod written by the harness.
+nQf == <<113, 102>>           \* qf   quadrature_face_type
+nQe == <<113, 101>>           \* qe   quadrature_edge_type
+QOrders == << <<"e","f">>, <<"f","e">>, <<"x","e">>, <<"e","x">>, <<"x","f">>, <<"f","x">>,
+              <<"x","f","e">>, <<"x","e","f">>, <<"f","x","e">>, <<"f","e","x">>,
+              <<"e","x","f">>, <<"e","f","x">> >>
+RECURSIVE JoinStr(_)
+JoinStr(ss) == IF ss = <<>> THEN "" ELSE ss[1] \o JoinStr(Tail(ss))
+QKind(l) == CASE l = "x" -> "qr" [] l = "f" -> "qrf" [] OTHER -> "qre"
+QObj(l, up) == LET t == CASE l = "x" -> nQr [] l = "f" -> nQf [] OTHER -> nQe
+               IN IF up THEN Up(t) ELSE t
+QCall(ord, up) ==
+    [k |-> "q_" \o JoinStr(ord),
+     args |-> <<nM1, nM2, nF2, nM3>> \o [i \in DOMAIN ord |-> QObj(ord[i], up /\ i = 1)],
+     kinds |-> <<"field", "field", "field", "field">> \o [i \in DOMAIN ord |-> QKind(ord[i])]]
+QOrderShape(i) ==
+    LET ord == At(QOrders, i)
+        v   == (i \div 12) % 3
+        calls == CASE v = 0 -> << QCall(ord, FALSE) >>
+                   [] v = 1 -> << KCall("tks", <<nM1, nF2, nN1, nM2, nM3>>), QCall(ord, TRUE) >>
+                   [] OTHER -> << QCall(ord, FALSE),
+                                  KCall("tkq", <<nM1, nM2, nF2, nX1, nM3, nI1, nQr2>>),
+                                  KCall("setval_c", <<nF1, nX1>>) >>
+    IN [fam |-> "qorder", api |-> "lfric", idx |-> i,
+        invokes |-> << Inv(At(NameU, i \div 5), calls) >>]
+NQOrder == 36
+
 \* --- GOcean families (kernels: gcopy(f, f), gssh(s, f))
 LitGo == <<50, 46, 48, 95, 103, 111, 95, 119, 112>>          \* 2.0_go_wp
 GoScalarU == [i \in DOMAIN ScalarU |-> IF ScalarU[i] = Lit2 THEN LitGo ELSE ScalarU[i]]
@@ -316,13 +349,15 @@ NGoScalar == NS * NS
 
 CONSTANTS Api,                    \* "lfric" | "gocean" | "all"
           Stride, Offset          \* thinning of the family: every Stride-th shape
-NLfric  == NPair + NScalar + NDouble + NExtra
+NLfric  == NPair + NScalar + NDouble + NExtra + NQOrder
 NGocean == NGoPair + NGoScalar
 LfricShape(n) ==
     IF n < NPair THEN PairShape(n)
     ELSE IF n < NPair + NScalar THEN ScalarShape(n - NPair)
     ELSE IF n < NPair + NScalar + NDouble THEN DoubleShape(n - NPair - NScalar)
-    ELSE ExtraShape(n - NPair - NScalar - NDouble)
+    ELSE IF n < NPair + NScalar + NDouble + NExtra
+         THEN ExtraShape(n - NPair - NScalar - NDouble)
+    ELSE QOrderShape(n - NPair - NScalar - NDouble - NExtra)
 GoceanShape(n) == IF n < NGoPair THEN GoPairShape(n) ELSE GoScalarShape(n - NGoPair)
 NShapes == CASE Api = "lfric" -> NLfric [] Api = "gocean" -> NGocean
              [] OTHER -> NLfric + NGocean
@@ -331,8 +366,12 @@ ShapeAt(n) ==                      \* n in 0..NShapes-1
       [] Api = "gocean" -> GoceanShape(n)
       [] OTHER -> IF n < NLfric THEN LfricShape(n) ELSE GoceanShape(n - NLfric)
 \* the extra family (expensive kernels) is thinned twice as much when thinning
-IsExtra(n) == Api # "gocean" /\ n >= NPair + NScalar + NDouble /\ n < NLfric
-StrideOf(n) == IF IsExtra(n) /\ Stride > 1 THEN 2 * Stride ELSE Stride
+IsExtra(n) == Api # "gocean" /\ n >= NPair + NScalar + NDouble
+              /\ n < NPair + NScalar + NDouble + NExtra
+\* the (small) quadrature-order family is never thinned
+IsQOrder(n) == Api # "gocean" /\ n >= NPair + NScalar + NDouble + NExtra /\ n < NLfric
+StrideOf(n) == IF IsQOrder(n) THEN 1
+               ELSE IF IsExtra(n) /\ Stride > 1 THEN 2 * Stride ELSE Stride
 ShapeIds == {n \in 0..(NShapes - 1) : n % StrideOf(n) = Offset % StrideOf(n)}
 
 \* ------------------------------------------------------------------ Part 3
